@@ -65,6 +65,14 @@ def _stmts_after(fn, target):
     return out
 
 
+def _stmt_of(fn, node):
+    """the top-level statement of fn that contains node"""
+    for st in fn.node.body:
+        if any(x is node for x in ast.walk(st)):
+            return st
+    return node
+
+
 def r11_2(ctx):
     out = Outcome("R11.2", "single writer of the boundary field; its store is the last effectful statement (commit "
                            "point); __split_segment prepares fresh pieces and commits once; cache fills are single "
@@ -192,6 +200,35 @@ def r11_2(ctx):
         if isinstance(n, ast.Call) and isinstance(n.func, ast.Attribute) and n.func.attr in (
                 "invert", "move", "scale", "rotate") and pat.root_name(n.func.value) not in fresh:
             bad.append((n, f"in-place call {U(n)[:40]} on a live object"))
+    # steps cut into private helpers: a helper that (by its effect summary, engine O) writes one of its parameters must
+    # receive a fresh piece there; one that writes the curve's own fields -- only those the segments setter writes -- is
+    # the commit
+    eng = ownership(ctx)
+    setter = next((g for q2, g in ctx.model.funcs.items() if q2.endswith("JordanCurve.segments:set")), None)
+    own_fields = {k[0] for k in eng.S[setter.qname].mut.get(setter.params[0], set())} if setter else set()
+    for n in ast.walk(fn.node):
+        if not isinstance(n, ast.Call):
+            continue
+        for t in inf.targets(n, ("call",)):
+            if not (t.name.startswith("_") and not (t.name.startswith("__") and t.name.endswith("__"))) or t.qname == fn.qname:
+                continue
+            ps = list(t.params)
+            args = list(n.args)
+            if t.kind in ("method", "class") and isinstance(n.func, ast.Attribute):
+                args = [n.func.value] + args
+            for prm, arg in zip(ps, args):
+                muts = eng.S[t.qname].mut.get(prm, set())
+                if not muts:
+                    continue
+                if pat.is_name(arg, selfn):
+                    fields = {k[0] for k in muts if k[1] == "own"}
+                    deep = {k[0] for k in muts if k[1] != "own"}
+                    if fields and fields <= own_fields and "_JordanCurve__segments" in {f for f in fields} | {f.replace("__", "_JordanCurve__", 1) if f.startswith("__") else f for f in fields}:
+                        commits.append(_stmt_of(fn, n))
+                    elif fields:
+                        bad.append((n, f"helper {t.name} writes {sorted(fields)} of the curve"))
+                elif not rooted_fresh(arg) and not (isinstance(arg, ast.Name) and arg.id in fresh):
+                    bad.append((n, f"helper {t.name} writes into `{U(arg)[:30]}`, which is not a fresh piece"))
     for n, why in bad:
         out.bad(fn.qname, "mutates live curve state before the commit: " + why, where=fn.where(n))
     if len(commits) != 1:
